@@ -19,9 +19,11 @@ THEOREMS = [
          "neighbours, surroundings and shelf of conductance × temperature difference", strength="full"),
     dict(name="Snow.C01.heat_cancels", clause="heat exchanged between vials sums to zero over the batch "
          "(symmetric neighbour relation)", strength="full"),
-    dict(name="Snow.C01.step_trichotomy", clause="every vial transition of a step is exactly one of: sensible "
-         "cooling, nucleation jump of a supercooled liquid vial, equilibrium solidification; which one is decided by "
-         "sigma = 0 and the nucleation decision", strength="full"),
+    dict(name="Snow.C01.vial_trichotomy", clause="a vial transition is exactly one of: sensible cooling, nucleation "
+         "jump of a supercooled liquid vial to the selected formulation, equilibrium solidification; which one is "
+         "decided by sigma = 0 and the nucleation decision (any q, kb, dice, CN flag)", strength="full"),
+    dict(name="Snow.C01.step_trichotomy", clause="every vial of every step: the new vial value is that transition, "
+         "driven by the net heat flow computed from the old state", strength="full"),
     dict(name="Snow.C01.indirect_is_eq9", clause="indirect formulation = eq. 9 of development.rst", strength="full"),
     dict(name="Snow.C01.direct_solves_eq12", clause="direct formulation solves eq. 12, lies in (0,1) when T < T_eq_l, "
          "and is the only root there", strength="full"),
@@ -46,7 +48,7 @@ TRUSTED = [
     "the derived constants are sent as numbers; their formulas are theorem derived_constants_used + C19",
 ]
 ASSUMPTIONS = [
-    "valid configurations: 0 < solid_fraction < 1, positive heat capacities, dt > 0, batch shapes with ny >= 2 or nz = 1",
+    "valid configurations: 0 < solid_fraction < 1, positive heat capacities, dt > 0",
     "time steps inside the explicit scheme's stability range (dt·Hsum <= 0.9·m·c_p), otherwise rounding is amplified "
     "beyond the comparison tolerance",
     "continuous comparisons use rtol 1e-9 (abs 1e-9 below 1); a decision whose float margin is < 1e-9 is a TIE",
@@ -88,13 +90,20 @@ def run_model(drv, case, impl=None):
         impl = run_impl(case)
     if impl.get("raise"):
         return {"raise": impl["raise"], "skipped": True}
-    return fu.run_model(drv, case, impl)
+    out = fu.run_model(drv, case, impl)
+    out["consts"] = fu.derive_model(drv, case.get("config"))
+    return out
 
 
 def compare(case, impl, model):
     if impl.get("raise"):
         return []  # construction/run errors of the real code are reported by `predicates`
-    return fu.compare_run(case, impl, model)
+    dis = []
+    for k, v in impl["consts"].items():
+        w = model["consts"][k]
+        if abs(v - w) > 1e-9 * max(abs(v), abs(w)):
+            dis.append(f"derived constant {k}: impl {v!r} vs model {w!r}")
+    return dis + fu.compare_run(case, impl, model)
 
 
 # ---------------------------------------------------------------------------
@@ -342,11 +351,11 @@ def _structured(rng, tier):
     big = 64 if tier == "quick" else 200
     while True:
         if pallet:
-            shape = [rng.randint(1, 5), rng.randint(2, 5), rng.randint(2, 4)]
+            shape = [rng.randint(1, 5), rng.randint(1, 5), rng.randint(2, 4)]
         else:
-            shape = [rng.randint(1, 8), rng.randint(2, 8), 1]
+            shape = [rng.randint(1, 8), rng.randint(1, 8), 1]
             if rng.random() < 0.1:
-                shape = [1, 1, 1] if arrangement == "square" else [2, 2, 1]
+                shape = [1, 1, 1]
         if shape[0] * shape[1] * shape[2] <= big:
             break
     k = {"int": rng.choice([0, 5, 20, 50.5]), "ext": rng.choice([0, 5, 20, 100, 300 if pallet else 20])}
